@@ -378,6 +378,21 @@ def parseF (s : String) : Option (List (Int × Bytes × Nat)) :=
                     | _, _, _ => none)
     | _ => none)
 
+mutual
+  /-- does some repeating group of these definitions list CheckSum (10) among its members?  (`parseGroup` would then take the
+      CheckSum field for a group member and reject the message: no acceptance claim under such a dictionary) -/
+  def tenMemberNodes : List DNode → Bool
+    | [] => false
+    | n :: r => tenMemberNode n || tenMemberNodes r
+  def tenMemberNode : DNode → Bool
+    | .mk _ c => c.any (fun x => x.tag = 10) || tenMemberNodes c
+end
+
+def tenMember (d : Dicts) : Bool :=
+  match d.app with
+  | some msgs => msgs.any (fun p => tenMemberNodes p.2)
+  | none => false
+
 /-- C11 clauses for one `parse` of `w` -/
 def monParse (d : Dicts) (mode : String) (w : Bytes) (obs : List String) : List String :=
   let k := modeKind mode
@@ -397,7 +412,10 @@ def monParse (d : Dicts) (mode : String) (w : Bytes) (obs : List String) : List 
     let lenOK := declared == some (rawLen mid : Int)
     let hasXml := nums.contains 212
     let len := if shape && !hasXml && !lenOK && isOk then ["rejects_length"] else []
-    let wf := shape && lenOK && (!hasXml || (fs.any (fun f => tagNum f.tagText = some 212 ∧ smallNat f.val > 0 ∧ secOf d 212 == .h)))
+    -- XMLData: claimed only when every field that READS 212 is spelled `212` (the scanner frames the data field by that text, the parser by the number)
+    let wf := shape && lenOK && !tenMember d &&
+      (!hasXml || (fs.all (fun f => tagNum f.tagText != some 212 || f.tagText == [50, 49, 50]) &&
+                   fs.any (fun f => tagNum f.tagText = some 212 ∧ smallNat f.val > 0 ∧ secOf d 212 == .h)))
     -- XML: only the canonical use is claimed (212 directly followed by its 213)
     let acc := if wf && !isOk && obs != ["panic"] then [s!"accepts_wf\{dict={k}}"] else []
     let faithful :=
@@ -425,6 +443,7 @@ def monParse (d : Dicts) (mode : String) (w : Bytes) (obs : List String) : List 
 
 /-- expected `get` on a parsed wire: last top-level occurrence of the tag in its section -/
 def expectGet (d : Dicts) (w : Bytes) (s : Sec) (t : Tag) : Option (Option Bytes) :=
+  if tenMember d then none else   -- a dictionary that lists CheckSum inside a group: no claim (C11_checksum_member_swallowed)
   match scanFields w with
   | none => none
   | some fs =>
